@@ -97,7 +97,11 @@ def utils_scenario(rng):
     ops = ['build 1 ' + to_tn(a), 'build 2 ' + to_tn(b), 'genp 3 1 2 1', 'dup 9 1 1', 'patch 9 3 1', 'genm 4 1 2 1', 'dup 5 1 1', 'merge 6 5 4 1',
            'sort 1 0', 'sort 2 1', 'child 7 1 0', 'findp 1 7', 'getp 8 1 =2f61 1', 'getp 8 1 =2f612f30 0', 'carr 10', 'addpatch 10 =616464 =2f78 2',
            'genp 11 2 1 0', 'genm 12 2 1 0', 'print 1 0', 'print 2 1', 'print 3 2 0 1', 'text 6 0',
-           'del 1', 'del 2', 'del 3', 'del 4', 'del 6', 'del 9', 'del 10', 'del 11', 'del 12']
+           # whole-document replacement by values that carry constant keys / come from constant-key members
+           'build 13 a1;o3;c6f70;s7265706c616365;c70617468;s;c76616c7565;o1;k61;t', 'dup 14 1 1', 'patch 14 13 1',
+           'build 15 o2;c6b31;a1;n3ff0000000000000,1;c6b32;s78;', 'build 16 a1;o3;k6f70;s6d6f7665;k66726f6d;s2f6b31;k70617468;s;', 'patch 15 16 1',
+           'build 17 o1;c6b31;o1;c696e;s76;', 'build 18 a1;o3;k6f70;s636f7079;k66726f6d;s2f6b31;k70617468;s;', 'patch 17 18 1', 'print 17 0',
+           'del 1', 'del 2', 'del 3', 'del 4', 'del 6', 'del 9', 'del 10', 'del 11', 'del 12', 'del 13', 'del 14', 'del 15', 'del 16', 'del 17', 'del 18']
     return ops
 
 
